@@ -6,6 +6,7 @@ Vec / slices / arrays of concrete length, Opaque for anything not modelled.
 Memory: one dict per path; locals live in cells named '<frame id>:_N', obligation objects in cells
 named '$name'; '$state' is the obligation's monitor state (events, abstract world)."""
 import os, re, sys, time
+import z3
 from z3 import (BitVec, BitVecVal, Bool, BoolVal, And, Or, Not, If, ULT, ULE, UGT, UGE, URem, UDiv, LShR, ZeroExt, SignExt,
                 Extract, Solver, sat, unsat, unknown, simplify, is_bv, is_bool, is_bv_value, is_true, is_false, BVAddNoOverflow,
                 BVMulNoOverflow, BVSubNoUnderflow, Concat)
@@ -283,6 +284,8 @@ class Exec:
         if m: return self.read(fid, env, m.group(1))
         m = re.match(r'const (-?\d+)_(usize|u64|isize|i64|u32|i32|u16|i16|u8|i8|u128|i128)$', tok)
         if m: return bv(int(m.group(1)), WIDTH[m.group(2)])
+        m = re.match(r'const (-?(?:\d+(?:\.\d+)?(?:[eE][+-]?\d+)?|inf|NaN))f64$', tok)
+        if m: return z3.FPVal(float(m.group(1)), z3.Float64())
         if tok == 'const true': return BoolVal(True)
         if tok == 'const false': return BoolVal(False)
         if tok == 'const ()': return ()
@@ -601,6 +604,8 @@ class Exec:
             if isinstance(a, Opaque) or isinstance(b, Opaque): return Opaque('cmp')
             if isinstance(a, Enum): a = self.discr_of(a)
             if isinstance(b, Enum): b = self.discr_of(b)
+            if z3.is_fp(a) or z3.is_fp(b):       # IEEE comparison (NaN compares false)
+                return {'Lt': z3.fpLT, 'Le': z3.fpLEQ, 'Gt': z3.fpGT, 'Ge': z3.fpGEQ, 'Eq': z3.fpEQ, 'Ne': lambda x, y: Not(z3.fpEQ(x, y))}[mm.group(1)](a, b)
             if mm.group(1) == 'Eq': return a == b
             if mm.group(1) == 'Ne': return a != b
             signed = self.is_signed(fn, fid, split_top(mm.group(2))[0])
@@ -618,6 +623,8 @@ class Exec:
             a, b = [op(x) for x in split_top(mm.group(2))]
             if is_bool(a) and is_bool(b):
                 return {'BitAnd': And, 'BitOr': Or, 'BitXor': lambda x, y: x != y}[mm.group(1)](a, b)
+            if z3.is_fp(a) and z3.is_fp(b) and mm.group(1) in ('Add', 'Sub', 'Mul', 'Div'):       # f64, round to nearest even
+                return simplify({'Add': z3.fpAdd, 'Sub': z3.fpSub, 'Mul': z3.fpMul, 'Div': z3.fpDiv}[mm.group(1)](z3.RNE(), a, b))
             if not (is_bv(a) and is_bv(b)): return Opaque('arith')
             o = mm.group(1).replace('Unchecked', '')
             if o in ('Shl', 'Shr') and a.size() != b.size():
@@ -654,6 +661,9 @@ class Exec:
         if mm:
             okind, src, ty, kind = mm.groups()
             v = self.read(fid, env, src) if okind != 'const' else self.operand(fid, env, 'const ' + src)
+            if kind == 'IntToFloat' and ty.strip() == 'f64' and is_bv(v):
+                signed = self.is_signed(fn, fid, 'copy ' + src) if okind != 'const' else bool(re.search(r'_i\d+$|_isize$', src))
+                return z3.fpSignedToFP(z3.RNE(), v, z3.Float64()) if signed else z3.fpToFPUnsigned(z3.RNE(), v, z3.Float64())
             if kind == 'IntToInt':
                 if not is_bv(v):
                     if isinstance(v, Enum):
